@@ -62,7 +62,7 @@ def build(run):
     body = prelude.MINIDOM + prelude.TOSTRING_STUB + f.text.replace("crate::xpath_functions::is_leaf", "xpath_functions::is_leaf") + HARNESS
     crate = kani_run.Crate("c09ids", body)
     run.bound("D-C09-a", "one 7-node tree (math > mrow > mi mo mrow > mi mn); every node without id or with author id 'ida' / 'idb' (3^7 assignments, duplicates included)")
-    run.assume("sxd_document replaced by the model DOM (lib/prelude.py MINIDOM): ids kept as (length, last byte) codes, injective on the ids used; "
+    run.assume("sxd_document replaced by the model DOM (lib/prelude.py MINIDOM): ids kept as (first byte, last byte) codes, injective on the ids used; "
                "ToString stubbed: a count n < 26 is rendered as one letter (the real decimal rendering is injective as well); the crate path of is_leaf is shortened")
     run.kani(crate, [dict(id="D-C09-a.ids_total_kept_unique", harness="ids_total_kept_unique", api=lambda v, o: api_dup() if "same id" in o else (True, "no recipe"),
                           role=lambda v, o: "duplicate-author-ids" if "same id" in o else ("author-id-replaced" if "author id" in o else "node-without-id"),
